@@ -121,11 +121,18 @@ func (r *snapRecorder) add(s comp.VerifSnap) {
 
 // runSchedule executes one schedule on the rig; returns the snapshots and a panic message if any.
 func runSchedule(s rigSchedule) (snaps [][]byte, panicMsg string, stuck bool) {
+	snaps, panicMsg, stuck, _ = runScheduleT(s)
+	return
+}
+
+// runScheduleT also returns the cycle in which the rig became quiet (part of the result C08 compares).
+func runScheduleT(s rigSchedule) (snaps [][]byte, panicMsg string, stuck bool, end int) {
 	rec := &snapRecorder{}
 	defer func() {
 		if p := recover(); p != nil {
 			panicMsg = fmt.Sprint(p)
 			snaps = rec.snaps
+			end = len(rec.snaps)
 		}
 	}()
 	rig := newRig(s.Variant, s.Cores, 8192)
@@ -170,10 +177,10 @@ func runSchedule(s rigSchedule) (snaps [][]byte, panicMsg string, stuck bool) {
 		if next >= len(evs) && !pendingQ && rig.Quiet() {
 			rig.Export()
 			rec.add(rig.Snapshot())
-			return rec.snaps, "", false
+			return rec.snaps, "", false, cycle
 		}
 	}
-	return rec.snaps, "", true
+	return rec.snaps, "", true, limit
 }
 
 func offsetsGrid(full bool) []int {
@@ -289,6 +296,23 @@ func rigSchedules(variant string) []rigSchedule {
 				// the same with the writer being a third sharer (upgrade Shared -> Modified)
 				evs2 := []rigEvent{{0, 1, "R", 64}, {1, 2, "R", 64}, {2, 0, "R", 64}, {400, 2, "W", 192}, {800, 1, "R", 196}, {802 + d, 0, k, 68}, {1600 + rep, 1, "R", 64}}
 				out = append(out, rigSchedule{Variant: variant, Cores: 3, Events: evs2})
+			}
+		}
+	}
+	// I. one core owns two Modified lines and is (or is not) busy; two other cores ask for them in the same
+	// cycle or a few cycles apart, then go on with work of different length (3 cores, 3 lines): several
+	// snoop requests reach one core together
+	for _, k1 := range kinds {
+		for _, k2 := range kinds {
+			for _, busy := range []bool{false, true} {
+				for d := 0; d <= 2; d++ {
+					evs := []rigEvent{{0, 0, "W", 0}, {400, 0, "W", 64}}
+					if busy {
+						evs = append(evs, rigEvent{1199, 0, "W", 192})
+					}
+					evs = append(evs, rigEvent{1200, 1, k1, 4}, rigEvent{1200 + d, 2, k2, 68}, rigEvent{1201, 1, "W", 256}, rigEvent{3000, 0, "R", 4}, rigEvent{3001, 2, "R", 8})
+					out = append(out, rigSchedule{Variant: variant, Cores: 3, Events: evs})
+				}
 			}
 		}
 	}
